@@ -1,6 +1,15 @@
 import PytmeModel.Model.C13
 import PytmeModel.Proofs.Common
 import PytmeModel.Proofs.DftRoundTrip
+import PytmeModel.Proofs.C13Pad
+import PytmeModel.Proofs.C13Fast
+import PytmeModel.Proofs.C13Window
+import PytmeModel.Proofs.C13Roll
+import PytmeModel.Proofs.C13Post
+import PytmeModel.Proofs.C13Dims
+import PytmeModel.Model.C04
+import PytmeModel.Proofs.C13TopK
+import PytmeModel.Proofs.C13Misc
 import Mathlib.Tactic.Ring
 import Mathlib.Tactic.Linarith
 
@@ -73,6 +82,49 @@ theorem half_ambiguous (h : Nat) (hh : 2 ≤ h) : halfLen (2 * h - 2) = h ∧ ha
 /-- and given the half length *and the parity* the real length is unique -/
 theorem half_with_parity_unique (N M : Nat) (hl : halfLen N = halfLen M) (hp : N % 2 = M % 2) : N = M := by
   unfold halfLen at hl; omega
+
+
+/-! ## `next_fast_len` is the *least* FFTW-fast length at or above the request -/
+
+/-- the fast-length test is exactly "`2^a 3^b 5^c 7^d · r` with `r ∈ {1, 11, 13}`" (FFTW's efficiently handled sizes) -/
+theorem isFast_iff (n : Nat) :
+    isFast n = true ↔ ∃ a b c d r, (r = 1 ∨ r = 11 ∨ r = 13) ∧ n = 2 ^ a * 3 ^ b * 5 ^ c * 7 ^ d * r := by
+  constructor
+  · exact isFast_sound n
+  · rintro ⟨a, b, c, d, r, hr, rfl⟩
+    exact isFast_complete a b c d r hr
+example : isFast 2340 = true ∧ isFast 143 = false ∧ isFast 17 = false := by decide
+
+/-- **the planned length is fast** (the search never runs out of fuel: a power of two lies in `[n, 2n]`) — supersedes
+`nextFastFrom_fast_or_exhausted`, which is kept as the inductive step -/
+theorem nextFastLen_isFast (n : Nat) (hn : 1 ≤ n) : isFast (nextFastLen n) = true := nextFastLen_fast n hn
+example : isFast (nextFastLen 17) = true ∧ isFast (nextFastLen 1025) = true := by decide
+
+/-- **and it is the least one**: nothing in `[n, nextFastLen n)` is fast -/
+theorem nextFastLen_least (n k : Nat) (h1 : n ≤ k) (h2 : k < nextFastLen n) : isFast k = false :=
+  nextFastLen_minimal n k h1 h2
+example : 17 ≤ 17 ∧ 17 < nextFastLen 17 ∧ isFast 17 = false := by decide
+
+/-- the padding never doubles an axis: `n ≤ nextFastLen n ≤ 2n` -/
+theorem nextFastLen_bounds (n : Nat) : n ≤ nextFastLen n ∧ nextFastLen n ≤ 2 * n :=
+  ⟨le_nextFastLen n, nextFastLen_le_two_mul n⟩
+example : nextFastLen 17 = 18 ∧ nextFastLen 1025 = 1029 ∧ nextFastLen 131 = 132 := by decide
+
+/-- specification of `next_fast_len`: any `v ≥ n` that is fast and has nothing fast below it down to `n` is the result -/
+theorem nextFastLen_unique (n v : Nat) (hn : 1 ≤ n) (h1 : n ≤ v) (hv : isFast v = true)
+    (hmin : ∀ k, n ≤ k → k < v → isFast k = false) : nextFastLen n = v := by
+  rcases Nat.lt_trichotomy (nextFastLen n) v with h | h | h
+  · have := hmin _ (le_nextFastLen n) h
+    rw [nextFastLen_fast n hn] at this; cases this
+  · exact h
+  · have := nextFastLen_minimal n v h1 h
+    rw [hv] at this; cases this
+example : nextFastLen 17 = 18 := by
+  refine nextFastLen_unique 17 18 (by decide) (by decide) (by decide) ?_
+  intro k h1 h2
+  have hk : k = 17 := by omega
+  subst hk
+  decide
 
 /-! ## corner padding -/
 
@@ -247,6 +299,832 @@ theorem centeredMask_spec (a : Arr Int) (new idx : List Nat) (h : inShape a.shap
       if inBox (centeredBox a.shape new) idx then a.getD idx 0 else 0 := by
   unfold centeredMask
   rw [Arr.getD_ofFn _ _ _ _ h]
+
+
+/-! ## `MatchingData._fourier_padding`: the four results, every branch, tied to the numbers C01 assumes -/
+
+/-- the three shapes: `conv` is the linear-convolution shape of `max(target, template)` with the per-axis pad extent
+(template extent with Fourier padding, 1 without, 1 on batch axes), `fast` its planned shape (never smaller),
+`ft` the half-spectrum shape of `fast` -/
+theorem fourierPadding_shapes (tg tp : List Nat) (bm : List Bool) (pad : Bool) :
+    (fourierPadding tg tp bm pad).conv
+        = convShape (List.zipWith max tg tp) (List.zipWith (fourierPadAxis pad) tp bm) ∧
+    (fourierPadding tg tp bm pad).fast = (fourierPadding tg tp bm pad).conv.map nextFastLen ∧
+    (fourierPadding tg tp bm pad).ft = fastFtShape (fourierPadding tg tp bm pad).fast ∧
+    List.Forall₂ (· ≤ ·) (fourierPadding tg tp bm pad).conv (fourierPadding tg tp bm pad).fast := by
+  refine ⟨rfl, rfl, rfl, ?_⟩
+  show List.Forall₂ (· ≤ ·) (convShape (List.zipWith max tg tp) (List.zipWith (fourierPadAxis pad) tp bm))
+    (List.map nextFastLen (convShape (List.zipWith max tg tp) (List.zipWith (fourierPadAxis pad) tp bm)))
+  generalize convShape (List.zipWith max tg tp) (List.zipWith (fourierPadAxis pad) tp bm) = c
+  induction c with
+  | nil => exact List.Forall₂.nil
+  | cons x xs ih => exact List.Forall₂.cons (le_nextFastLen x) ih
+example : fourierPadding [5, 8] [7, 3] [false, false] true = ⟨[13, 10], [13, 10], [13, 6], [1, 0]⟩ := by decide
+
+/-- without batch axes `conv_shape` is, axis by axis, the `convLen` of C01's frame analysis -/
+theorem fourierPadding_conv_eq_C01 (tg tp : List Nat) (bm : List Bool) (pad : Bool) (h : NoBatch tg tp bm) :
+    (fourierPadding tg tp bm pad).conv = List.zipWith (fun n m => Pm.C01.convLen n m pad) tg tp :=
+  conv_eq_C01 pad tg tp bm h
+example : NoBatch [5, 8] [7, 3] [false, false] := ⟨rfl, rfl, trivial⟩
+
+/-- **`fourier_shift` is exactly the vector C01 assumes, for every pair of shapes** (template larger than the target on
+any subset of axes included, with and without Fourier padding): the vector code with its global gate
+`np.sum(shape_mask)`, true divisions and final truncation computes C01's per-axis `fourierShiftFull`. -/
+theorem fourierPadding_shift_eq_C01 (tg tp : List Nat) (bm : List Bool) (pad : Bool) (h : NoBatch tg tp bm) :
+    (fourierPadding tg tp bm pad).shift = Pm.C01.shiftsOfFull pad tg tp :=
+  shifts_eq_C01_aux pad _ tg tp bm h (anyNeg_of_someLarger tg tp bm h)
+example : (fourierPadding [5, 8, 4] [7, 3, 9] [false, false, false] false).shift = Pm.C01.shiftsOfFull false [5, 8, 4] [7, 3, 9] := by decide
+
+/-- when the template fits on every axis this is `shiftsOf` (zeros with padding, `1 - m/2 - m%2` without) -/
+theorem fourierPadding_shift_fits (tg tp : List Nat) (bm : List Bool) (pad : Bool) (h : NoBatch tg tp bm)
+    (hf : Fits tg tp) : (fourierPadding tg tp bm pad).shift = Pm.C01.shiftsOf pad tp := by
+  rw [fourierPadding_shift_eq_C01 tg tp bm pad h, shiftsOfFull_fits pad tg tp hf]
+example : Fits [5, 8] [4, 3] := ⟨by decide, by decide, trivial⟩
+
+/-- batch axes (and axes on which the template fits) are never corrected, whatever happens on the other axes -/
+theorem fourierPadding_shift_batch (tg tp : List Nat) (bm : List Bool) (pad : Bool)
+    (h : ∀ n m b, (n, m, b) ∈ tg.zip (tp.zip bm) → b = true ∨ m ≤ n) :
+    (fourierPadding tg tp bm pad).shift = zip3With (fun _ m _ => baseShift pad m) tg tp bm :=
+  shifts_any_batch pad _ tg tp bm h
+example : (fourierPadding [5, 8] [7, 3] [true, false] false).shift = [-3, -1] := by decide
+
+/-- one axis, any gate: a batch axis / an axis where the template fits keeps the uncorrected shift -/
+theorem shiftAxis_uncorrected (pad g : Bool) (n m : Nat) (b : Bool) (h : b = true ∨ m ≤ n) :
+    shiftAxis pad g n m b = baseShift pad m := by
+  rcases h with rfl | h
+  · exact shiftAxis_batch pad g n m
+  · exact shiftAxis_fits pad g n m b h
+example : shiftAxis false true 8 3 false = baseShift false 3 ∧ shiftAxis true true 2 9 true = baseShift true 9 := by decide
+
+
+/-- `target_padding`: with `pad_target` the target grows by `m - m%2` per axis (nothing on batch axes, nothing without it),
+and then the `valid` output of the padded target has the original target extent again -/
+theorem targetPadding_spec (pad : Bool) (tp : List Nat) (bm : List Bool) :
+    targetPadding pad tp bm = List.zipWith (fun m b => if pad ∧ b = false then m - m % 2 else 0) tp bm := by
+  unfold targetPadding
+  congr 1
+  funext m b
+  cases pad <;> cases b <;> simp
+example : targetPadding true [7, 4, 5] [false, false, true] = [6, 4, 0] := by decide
+
+theorem targetPadding_restores_valid (n m : Nat) (h : 1 ≤ m) :
+    validLen (n + (m - m % 2)) m = n := by
+  unfold validLen; omega
+example : validLen (10 + (5 - 5 % 2)) 5 = 10 := by decide
+
+/-! ## `_set_matching_dimension`: what `fourier_padding()` hands to `_fourier_padding` -/
+
+/-- **no batch axes** (`MatchingData(target, template)` as constructed): the target's shape as it is, the template's shape
+cut / filled with ones to the target's rank, and a batch mask of zeros — so `NoBatch` holds and every theorem about
+`_fourier_padding` above applies to what `fourier_padding()` computes -/
+theorem matchingDims_plain (ts ps : List Nat) :
+    matchingDims ts ps [] [] = .ok ⟨ts, (List.range' 0 ts.length).map (fun j => ps.getD j 1),
+      List.replicate ts.length false⟩ := by
+  unfold matchingDims
+  simp only [List.any_nil, Bool.false_eq_true, or_self, if_false, List.length_nil, Nat.sub_zero, Nat.add_zero]
+  rw [matchLoop_plain ts ps [] [] ts.length 0 0 0 _ (fun j _ _ => ⟨rfl, rfl⟩)]
+  simp only [List.map_map, Nat.sub_zero]
+  show Except.ok _ = _
+  congr 2
+  · exact map_getD_range' 1 ts
+  · exact map_const_range' false ts.length 0
+example : matchingDims [5, 8, 4] [7, 3] [] [] = .ok ⟨[5, 8, 4], [7, 3, 1], [false, false, false]⟩ := by decide
+
+/-- equal ranks: both shapes unchanged -/
+theorem matchingDims_plain_same_rank (ts ps : List Nat) (h : ps.length = ts.length) :
+    matchingDims ts ps [] [] = .ok ⟨ts, ps, List.replicate ts.length false⟩ := by
+  rw [matchingDims_plain, ← h, map_getD_range' 1 ps]
+example : matchingDims [5, 8] [7, 3] [] [] = .ok ⟨[5, 8], [7, 3], [false, false]⟩ := by decide
+
+theorem matchLoop_stack (B : Nat) (ts ps : List Nat) :
+    matchLoop (B :: ts) ps [0] [] (ts.length + 1) 0 0 0 0
+      = some ((B, 1, true) :: (List.range' 1 ts.length).map fun j => ((B :: ts).getD j 1, ps.getD (j - 1) 1, false)) := by
+  unfold matchLoop
+  have hp := matchLoop_plain (B :: ts) ps [0] [] ts.length 1 0 1 0 (fun j hj _ => ⟨by
+    simp only [Nat.sub_zero, List.contains_cons, List.contains_nil, Bool.or_false, beq_eq_false_iff_ne]; omega, rfl⟩)
+  simp only [Nat.sub_zero] at hp
+  simp [hp]
+example : matchLoop [9, 5] [3] [0] [] 2 0 0 0 0 = some [(9, 1, true), (5, 3, false)] := by decide
+
+/-- **a stack of targets** (`target_dims = 0`, template of the measurement rank): the stack axis is flagged as batch axis
+and gets template extent 1, the remaining axes keep both shapes in order -/
+theorem matchingDims_target_stack (B : Nat) (ts ps : List Nat) (h : ps.length = ts.length) :
+    matchingDims (B :: ts) ps [0] [] = .ok ⟨B :: ts, 1 :: ps, true :: List.replicate ts.length false⟩ := by
+  have hrem : ((B :: ts).length - [0].length) + ([0].length + ([] : List Nat).length) = ts.length + 1 := by simp
+  have hcol : ps.length - ([] : List Nat).length - ((B :: ts).length - [0].length) = 0 := by simp [h]
+  have hv : ¬ (([0].any fun x => decide ((B :: ts).length ≤ x)) = true ∨
+      (([] : List Nat).any fun x => decide (ps.length ≤ x)) = true) := by simp
+  unfold matchingDims
+  simp only [hv, if_false, hrem, hcol, matchLoop_stack]
+  show Except.ok _ = _
+  simp only [List.map_cons, List.map_map]
+  congr 2
+  · congr 1
+    rw [map_range'_succ]
+    simpa using map_getD_range' 1 ts
+  · congr 1
+    rw [map_range'_succ]
+    simpa [h] using map_getD_range' 1 ps
+  · congr 1
+    exact map_const_range' false ts.length 1
+example : matchingDims [9, 5, 8] [3, 4] [0] [] = .ok ⟨[9, 5, 8], [1, 3, 4], [true, false, false]⟩ := by decide
+
+
+
+theorem matchLoop_template_stack (B : Nat) (ts ps : List Nat) :
+    matchLoop ts (B :: ps) [] [0] (ts.length + 1) 0 0 0 0
+      = some ((1, B, true) :: (List.range' 1 ts.length).map fun j => (ts.getD (j - 1) 1, (B :: ps).getD j 1, false)) := by
+  unfold matchLoop
+  have hp := matchLoop_plain ts (B :: ps) [] [0] ts.length 1 1 0 0 (fun j hj _ => ⟨rfl, by
+    simp only [Nat.sub_zero, List.contains_cons, List.contains_nil, Bool.or_false, beq_eq_false_iff_ne]; omega⟩)
+  simp only [Nat.sub_zero] at hp
+  simp [hp]
+example : matchLoop [5] [9, 3] [] [0] 2 0 0 0 0 = some [(1, 9, true), (5, 3, false)] := by decide
+
+/-- **a stack of templates** (`template_dims = 0`, target of the measurement rank): a leading batch axis of target extent 1 -/
+theorem matchingDims_template_stack (B : Nat) (ts ps : List Nat) (h : ps.length = ts.length) :
+    matchingDims ts (B :: ps) [] [0] = .ok ⟨1 :: ts, B :: ps, true :: List.replicate ts.length false⟩ := by
+  have hrem : (ts.length - ([] : List Nat).length) + (([] : List Nat).length + [0].length) = ts.length + 1 := by simp
+  have hcol : (B :: ps).length - [0].length - (ts.length - ([] : List Nat).length) = 0 := by simp [h]
+  have hv : ¬ ((([] : List Nat).any fun x => decide (ts.length ≤ x)) = true ∨
+      ([0].any fun x => decide ((B :: ps).length ≤ x)) = true) := by simp
+  unfold matchingDims
+  simp only [hv, if_false, hrem, hcol, matchLoop_template_stack]
+  show Except.ok _ = _
+  simp only [List.map_cons, List.map_map]
+  congr 2
+  · congr 1
+    rw [map_range'_succ]
+    simpa using map_getD_range' 1 ts
+  · congr 1
+    rw [map_range'_succ]
+    simpa [h] using map_getD_range' 1 ps
+  · congr 1
+    exact map_const_range' false ts.length 1
+example : matchingDims [5, 8] [9, 3, 4] [] [0] = .ok ⟨[1, 5, 8], [9, 3, 4], [true, false, false]⟩ := by decide
+
+/-- **the object-level chain**: for a `MatchingData(target, template)` of equal ranks, what `fourier_padding(pad)` returns
+(`_set_matching_dimension` → `_fourier_padding`) has C01's convolution shape and C01's shift vector -/
+theorem object_fourier_padding (ts ps : List Nat) (h : ps.length = ts.length) (pad : Bool) (r : MatchDims)
+    (hr : matchingDims ts ps [] [] = .ok r) :
+    (fourierPadding r.target r.template r.batch pad).shift = Pm.C01.shiftsOfFull pad ts ps ∧
+    (fourierPadding r.target r.template r.batch pad).conv = List.zipWith (fun n m => Pm.C01.convLen n m pad) ts ps := by
+  rw [matchingDims_plain_same_rank ts ps h] at hr
+  cases hr
+  have hb := noBatch_replicate ts ps h.symm
+  exact ⟨fourierPadding_shift_eq_C01 ts ps _ pad hb, fourierPadding_conv_eq_C01 ts ps _ pad hb⟩
+example : matchingDims [5, 8] [7, 3] [] [] = .ok ⟨[5, 8], [7, 3], [false, false]⟩ := by decide
+
+/-! ## roll by the Fourier shift, then crop: the window the analyzers report (ties to C01 and C05) -/
+
+/-- the executable read position is C01's `rawIdx` -/
+theorem postSrc_is_rawIdx (N : Nat) (shift : Int) (start t : Nat) :
+    postSrc N shift start t = (Pm.C01.rawIdx N shift (start : Int) (t : Int)).toNat :=
+  postSrc_eq_rawIdx N shift start t
+example : postSrc 16 (-2) 0 14 = 0 := by decide
+
+/-- and C05's `mapSrc` (where `MaxScoreOverRotations._postprocess` reads the value it reports) -/
+theorem postSrc_is_mapSrc (ax : Pm.C05.Axis) (t : Nat) (h : 0 ≤ Pm.C05.cropStart ax) :
+    Pm.C05.mapSrc ax t = postSrc ax.fast ax.shift (Pm.C05.cropStart ax).toNat t :=
+  mapSrc_eq_postSrc ax t h
+example : Pm.C05.mapSrc ⟨16, 16, 16, -2⟩ 14 = postSrc 16 (-2) 0 14 := by decide
+
+
+/-- the three crop-start conventions in the code base — flooring (`_center_slice`, this model), C01's `cropStart`, and the
+truncating `astype(int)` of the peak callers' `_postprocess` (C05) — are the same number whenever the output fits -/
+theorem cropStart_conventions_agree (conv ext : Nat) (h : ext ≤ conv) (fast : Nat) (shift : Int) :
+    centerStart conv ext = (((conv - ext) / 2 : Nat) : Int) ∧
+    Pm.C01.cropStart conv ext = (((conv - ext) / 2 : Nat) : Int) ∧
+    Pm.C05.cropStart ⟨fast, conv, (ext : Int), shift⟩ = (((conv - ext) / 2 : Nat) : Int) := by
+  refine ⟨by unfold centerStart; omega, cropStart_nat conv ext h, ?_⟩
+  unfold Pm.C05.cropStart
+  simp only
+  rw [Int.tdiv_eq_ediv_of_nonneg (by omega)]
+  omega
+example : centerStart 13 5 = 4 ∧ Pm.C01.cropStart 13 5 = 4 ∧ Pm.C05.cropStart ⟨13, 13, 5, 1⟩ = 4 := by decide
+
+/-- **full Fourier padding, `same` crop, any pair of extents**: with the shift `_fourier_padding` returns and the crop
+start `apply_convolution_mode` uses, output voxel `t` shows raw voxel `t + (m-1)/2` — the window C01 assumes -/
+theorem postSrc_same_pad (g : Bool) (n m N t : Nat) (hm : 0 < m) (hn : 0 < n) (ht : t < n)
+    (hN : max n m + m - 1 ≤ N) (hg : n < m → g = true) :
+    postSrc N (shiftAxis true g n m false) ((max n m + m - 1 - n) / 2) t = t + (m - 1) / 2 :=
+  window_same_pad g n m N t hm hn ht hN hg
+example : postSrc 13 (shiftAxis true true 5 7 false) ((max 5 7 + 7 - 1 - 5) / 2) 4 = 4 + (7 - 1) / 2 := by decide
+
+/-- without Fourier padding (template fits): the same window for every voxel whose window lies inside the target -/
+theorem postSrc_same_nopad (g : Bool) (n m N t : Nat) (b : Bool) (hm : 0 < m) (hmn : m ≤ n) (hN : n ≤ N)
+    (h0 : m / 2 ≤ t) (h1 : t + (m - 1) / 2 ≤ n - 1) :
+    postSrc N (shiftAxis false g n m b) 0 t = t + (m - 1) / 2 :=
+  window_same_nopad g n m N t b hm hmn hN h0 h1
+example : postSrc 8 (shiftAxis false false 8 3 false) 0 5 = 5 + (3 - 1) / 2 := by decide
+
+/-- `valid` crop: output voxel `j` shows raw voxel `j + m/2 + (m-1)/2`, with and without padding -/
+theorem postSrc_valid (pad g : Bool) (n m N j : Nat) (b : Bool) (hm : 0 < m) (hmn : m ≤ n)
+    (hN : Pm.C01.convLen n m pad ≤ N) (hj : j < n - m + m % 2) :
+    postSrc N (shiftAxis pad g n m b) ((Pm.C01.convLen n m pad - (n - m + m % 2)) / 2) j = j + m / 2 + (m - 1) / 2 :=
+  window_valid pad g n m N j b hm hmn hN hj
+example : postSrc 10 (shiftAxis true false 8 3 false) ((Pm.C01.convLen 8 3 true - (8 - 3 + 3 % 2)) / 2) 2 = 2 + 3 / 2 + (3 - 1) / 2 := by decide
+
+/-- side conditions of C01's n-D frame lemma follow from positivity alone when the planned shape is the one
+`_fourier_padding` returns -/
+theorem sameFullOk_of_fourierPadding : ∀ (ns ms : List Nat) (ts : List Int),
+    List.Forall₂ (fun n t => (0 : Nat) < n ∧ 0 ≤ t ∧ t < (n : Int)) ns ts → List.Forall₂ (fun (_ : Nat) m => 0 < m) ns ms →
+    Pm.C01.SameFullOk ns ms ((List.zipWith (fun n m => Pm.C01.convLen n m true) ns ms).map nextFastLen) ts
+  | [], [], [], _, _ => trivial
+  | n :: ns, m :: ms, t :: ts, .cons ⟨hn, h0, h1⟩ hr, .cons hm hmr =>
+    ⟨⟨hm, hn, le_nextFastLen _, h0, h1⟩, sameFullOk_of_fourierPadding ns ms ts hr hmr⟩
+example : List.Forall₂ (fun n t => (0 : Nat) < n ∧ 0 ≤ t ∧ t < (n : Int)) [5, 8] [4, 0] := by
+  repeat constructor
+
+/-- **n-D, full Fourier padding, every pair of shapes**: with the planned shape and the shift vector returned by
+`_fourier_padding` and the `same` crop, the frame index the pipeline reads for a target voxel `t` is C01's `rawPos`
+(`t + (m-1)/2` per axis) — the premise of C01's `implCorr_same_full`, now derived from the executable planner. -/
+theorem fourierPadding_frame_same (tg tp : List Nat) (bm : List Bool) (t : List Int) (h : NoBatch tg tp bm)
+    (ht : List.Forall₂ (fun n t => (0 : Nat) < n ∧ 0 ≤ t ∧ t < (n : Int)) tg t)
+    (hm : List.Forall₂ (fun (_ : Nat) m => 0 < m) tg tp) :
+    Pm.C01.frameIdx (fourierPadding tg tp bm true).fast (fourierPadding tg tp bm true).shift
+      (Pm.C01.sameCrops true tg tp) t = Pm.C01.rawPos tp t := by
+  have hs := fourierPadding_shift_eq_C01 tg tp bm true h
+  have hf : (fourierPadding tg tp bm true).fast
+      = (List.zipWith (fun n m => Pm.C01.convLen n m true) tg tp).map nextFastLen := by
+    rw [(fourierPadding_shapes tg tp bm true).2.1, fourierPadding_conv_eq_C01 tg tp bm true h]
+  rw [hs, hf]
+  exact (Pm.C01.frame_same_full tg tp _ t (sameFullOk_of_fourierPadding tg tp t ht hm)).1
+example : Pm.C01.frameIdx (fourierPadding [5, 8] [7, 3] [false, false] true).fast (fourierPadding [5, 8] [7, 3] [false, false] true).shift
+    (Pm.C01.sameCrops true [5, 8] [7, 3]) [4, 0] = Pm.C01.rawPos [7, 3] [4, 0] := by decide
+
+/-- array level: the post-processed map (roll, cut, crop) at `idx` is the raw map at the rolled, shifted index -/
+theorem postMap_spec {α : Type} (a : Arr α) (shift : List Int) (mode : Mode) (conv s1 s2 : List Nat) (d : α)
+    (boxes : List (Nat × Nat)) (hb : convCrops mode conv s1 s2 = some boxes) (idx : List Nat)
+    (h1 : inShape (boxes.map (·.2)) idx = true)
+    (h2 : inShape a.shape (List.zipWith (· + ·) (boxes.map (·.1)) idx) = true) :
+    ∃ r, postMap a shift mode conv s1 s2 d = some r ∧
+      r.getD idx d = a.getD (rollIdx a.shape shift (List.zipWith (· + ·) (boxes.map (·.1)) idx)) d := by
+  refine ⟨_, by unfold postMap; rw [hb], ?_⟩
+  rw [crop_spec _ _ _ _ _ h1]
+  unfold rollArr
+  rw [Arr.getD_ofFn _ _ _ _ h2]
+example : (postMap (⟨[4], #[10, 11, 12, 13]⟩ : Arr Int) [-1] .same [4] [2] [3] 0).map (·.toList) = some [12, 13] := by decide
+
+/-- per axis the rolled index is `postSrc` -/
+theorem rollIdx_cons (N : Nat) (Ns : List Nat) (s : Int) (ss : List Int) (st t : Nat) (is : List Nat) :
+    rollIdx (N :: Ns) (s :: ss) ((st + t) :: is) = postSrc N s st t :: rollIdx Ns ss is := rfl
+example : rollIdx [7, 4] [2, -1] [1 + 3, 0 + 2] = [postSrc 7 2 1 3, postSrc 4 (-1) 0 2] := by decide
+
+
+/-- n-D, template fits, with or without Fourier padding, `same` crop: the planner's shift and planned shape give
+C01's `rawPos` (premise of C01's `implCorr_same`) -/
+theorem fourierPadding_frame_same_fits (pad : Bool) (tg tp : List Nat) (bm : List Bool) (t : List Int)
+    (h : NoBatch tg tp bm) (ht : FitsAt pad tg tp t) :
+    Pm.C01.frameIdx (fourierPadding tg tp bm pad).fast (fourierPadding tg tp bm pad).shift
+      (Pm.C01.sameCrops pad tg tp) t = Pm.C01.rawPos tp t := by
+  rw [fourierPadding_shift_fits tg tp bm pad h (fitsAt_fits pad tg tp t ht),
+    (fourierPadding_shapes tg tp bm pad).2.1, fourierPadding_conv_eq_C01 tg tp bm pad h]
+  refine (Pm.C01.frame_same pad tg tp _ t ?_).1
+  clear h
+  induction tg generalizing tp t with
+  | nil => cases tp <;> cases t <;> first | trivial | cases ht
+  | cons n ns ih =>
+    cases tp with
+    | nil => cases ht
+    | cons m ms =>
+      cases t with
+      | nil => cases ht
+      | cons t ts =>
+        obtain ⟨⟨hm, hmn, h0, h1, hw⟩, hr⟩ := ht
+        exact ⟨⟨hm, hmn, le_nextFastLen _, h0, h1, hw⟩, ih ms ts hr⟩
+example : FitsAt false [8, 5] [3, 2] [5, 1] := by
+  refine ⟨⟨by decide, by decide, by decide, by decide, fun _ => by decide⟩, ⟨by decide, by decide, by decide, by decide, fun _ => by decide⟩, trivial⟩
+
+/-- n-D, `valid` crop: output voxel `j` reads C01's `rawPos` of translation `validT j` (premise of `implCorr_valid`) -/
+theorem fourierPadding_frame_valid (pad : Bool) (tg tp : List Nat) (bm : List Bool) (j : List Int)
+    (h : NoBatch tg tp bm) (hj : ValidAt tg tp j) :
+    Pm.C01.frameIdx (fourierPadding tg tp bm pad).fast (fourierPadding tg tp bm pad).shift
+      (Pm.C01.validCrops pad tg tp) j = Pm.C01.rawPos tp (Pm.C01.validT tp j) := by
+  rw [fourierPadding_shift_fits tg tp bm pad h (validAt_fits tg tp j hj),
+    (fourierPadding_shapes tg tp bm pad).2.1, fourierPadding_conv_eq_C01 tg tp bm pad h]
+  refine (Pm.C01.frame_valid pad tg tp _ j ?_).1
+  clear h
+  induction tg generalizing tp j with
+  | nil => cases tp <;> cases j <;> first | trivial | cases hj
+  | cons n ns ih =>
+    cases tp with
+    | nil => cases hj
+    | cons m ms =>
+      cases j with
+      | nil => cases hj
+      | cons j js =>
+        obtain ⟨⟨hm, hmn, h0, h1⟩, hr⟩ := hj
+        exact ⟨⟨hm, hmn, le_nextFastLen _, h0, h1⟩, ih ms js hr⟩
+example : ValidAt [8, 5] [3, 2] [5, 1] := by
+  refine ⟨⟨by decide, by decide, by decide, by decide⟩, ⟨by decide, by decide, by decide, by decide⟩, trivial⟩
+
+/-- **array level, every pair of shapes, full Fourier padding, `same` mode** — the executable pipeline
+`roll(shift) → [:conv] → centre crop` applied to a raw map `a` with the shift vector computed by the vector code of
+`_fourier_padding` (gate `g`): the result has the target's shape and its voxel `t` is the raw voxel
+`t + (m-1)/2` on every axis (the template's centre voxel placed at `t`), whether or not the template is larger than the
+target on some axes. -/
+theorem postMap_same_pad {α : Type} (a : Arr α) (d : α) (g : Bool) (tg tp : List Nat) (bm : List Bool) (t : List Nat)
+    (h : NoBatch tg tp bm) (hg : SomeLarger tg tp → g = true) (hok : SamePadOk tg tp a.shape t) :
+    ∃ r, postMap a (zip3With (shiftAxis true g) tg tp bm) .same (padConv tg tp) tg tp d = some r ∧
+      r.shape = tg ∧ r.getD t d = a.getD (List.zipWith (fun t m => t + (m - 1) / 2) t tp) d := by
+  obtain ⟨e1, e2, e3, e4, e5⟩ := same_pad_lists g tg tp bm a.shape t h hg hok
+  have hb := convCrops_same_pad tg tp a.shape t hok
+  obtain ⟨r, hr, hv⟩ := postMap_spec a (zip3With (shiftAxis true g) tg tp bm) .same (padConv tg tp) tg tp d _ hb t
+    (by rw [e5]; exact e3) (by rw [e4]; exact e2)
+  refine ⟨r, hr, ?_, ?_⟩
+  · unfold postMap at hr
+    rw [hb] at hr
+    simp only [Option.some.injEq] at hr
+    rw [← hr, e5]; rfl
+  · rw [hv, e4, e1]
+example : SamePadOk [5, 8] [7, 3] [13, 10] [4, 0] := by
+  refine ⟨⟨by decide, by decide, by decide, by decide⟩, ⟨by decide, by decide, by decide, by decide⟩, trivial⟩
+
+/-- … in particular for the planned shape and the shift vector `_fourier_padding` itself returns -/
+theorem postMap_fourierPadding_same {α : Type} (a : Arr α) (d : α) (tg tp : List Nat) (bm : List Bool) (t : List Nat)
+    (h : NoBatch tg tp bm) (hok : SamePadOk tg tp a.shape t) :
+    ∃ r, postMap a (fourierPadding tg tp bm true).shift .same (padConv tg tp) tg tp d = some r ∧
+      r.shape = tg ∧ r.getD t d = a.getD (List.zipWith (fun t m => t + (m - 1) / 2) t tp) d :=
+  postMap_same_pad a d _ tg tp bm t h (anyNeg_of_someLarger tg tp bm h) hok
+example : NoBatch [5, 8] [7, 3] [false, false] ∧ SamePadOk [5, 8] [7, 3] [13, 10] [4, 0] :=
+  ⟨⟨rfl, rfl, trivial⟩, ⟨by decide, by decide, by decide, by decide⟩, ⟨by decide, by decide, by decide, by decide⟩, trivial⟩
+
+/-- and `padConv` is the `conv_shape` it returns -/
+theorem fourierPadding_conv_pad (tg tp : List Nat) (bm : List Bool) (h : NoBatch tg tp bm) :
+    (fourierPadding tg tp bm true).conv = padConv tg tp := by
+  rw [fourierPadding_conv_eq_C01 tg tp bm true h]
+  unfold padConv Pm.C01.convLen
+  simp
+example : (postMap (Arr.ofFn [13] (fun i => (i.getD 0 0 : Nat))) (fourierPadding [5] [7] [false] true).shift .same
+    (padConv [5] [7]) [5] [7] 0).map (·.toList) = some [3, 4, 5, 6, 7] := by decide
+
+
+
+/-- **array level, `valid` mode, with or without Fourier padding, template fits (batch axes allowed)**: the result has
+shape `n - m + m%2` per axis and its voxel `j` is the raw voxel `j + m/2 + (m-1)/2` — translation `j + m/2` in C01's frame -/
+theorem postMap_valid {α : Type} (a : Arr α) (d : α) (pad g : Bool) (tg tp : List Nat) (bm : List Bool) (j : List Nat)
+    (hok : ValidOkN pad tg tp bm a.shape j) :
+    ∃ r, postMap a (zip3With (shiftAxis pad g) tg tp bm) .valid (convOf pad tg tp) tg tp d = some r ∧
+      r.shape = validExts tg tp ∧
+      r.getD j d = a.getD (List.zipWith (fun j m => j + m / 2 + (m - 1) / 2) j tp) d := by
+  obtain ⟨hf, hb⟩ := valid_facts pad g hok
+  exact axisFacts_read a d .valid (convOf pad tg tp) tg tp hf hb
+example : ValidOkN true [8, 5] [3, 2] [false, false] [10, 6] [5, 1] :=
+  .cons (by decide) (by decide) (by decide) (by decide) (.cons (by decide) (by decide) (by decide) (by decide) .nil)
+example : (postMap (Arr.ofFn [10] (fun i => (i.getD 0 0 : Nat))) (fourierPadding [8] [3] [false] true).shift .valid
+    (convOf true [8] [3]) [8] [3] 0).map (·.toList) = some [2, 3, 4, 5, 6, 7] := by decide
+
+/-- **array level, `same` mode without Fourier padding, template fits**: the result has the target's shape and every voxel
+whose window lies inside the target is the raw voxel `t + (m-1)/2` -/
+theorem postMap_same_nopad {α : Type} (a : Arr α) (d : α) (g : Bool) (tg tp : List Nat) (bm : List Bool) (t : List Nat)
+    (hok : SameNoPadOk tg tp bm a.shape t) :
+    ∃ r, postMap a (zip3With (shiftAxis false g) tg tp bm) .same tg tg tp d = some r ∧
+      r.shape = tg ∧ r.getD t d = a.getD (List.zipWith (fun t m => t + (m - 1) / 2) t tp) d := by
+  obtain ⟨hf, hb⟩ := same_nopad_facts g hok
+  exact axisFacts_read a d .same tg tg tp hf hb
+example : SameNoPadOk [8, 5] [3, 2] [false, false] [8, 5] [5, 1] :=
+  .cons (by decide) (by decide) (by decide) (by decide) (by decide)
+    (.cons (by decide) (by decide) (by decide) (by decide) (by decide) .nil)
+
+/-- the convolution shape used there is the one `_fourier_padding` returns -/
+theorem fourierPadding_conv_convOf (tg tp : List Nat) (bm : List Bool) (pad : Bool) (h : NoBatch tg tp bm) :
+    (fourierPadding tg tp bm pad).conv = convOf pad tg tp := fourierPadding_conv_eq_C01 tg tp bm pad h
+example : (fourierPadding [5, 8] [7, 3] [false, false] false).conv = convOf false [5, 8] [7, 3] := by decide
+
+/-- C04's model of the analyzer post-processing reads the same source index as this model (roll undone after the crop start is added) -/
+theorem C04_postSrc_eq_rollIdx : ∀ (shape : List Nat) (shift : List Int) (starts idx : List Nat),
+    Pm.C04.postSrc shape shift starts idx = rollIdx shape shift (List.zipWith (· + ·) starts idx)
+  | [], _, _, _ => by simp [Pm.C04.postSrc, rollIdx, zip3With]
+  | _ :: _, [], _, _ => by simp [Pm.C04.postSrc, rollIdx, zip3With]
+  | _ :: _, _ :: _, [], _ => by simp [Pm.C04.postSrc, rollIdx, zip3With]
+  | _ :: _, _ :: _, _ :: _, [] => by simp [Pm.C04.postSrc, rollIdx, zip3With]
+  | n :: ns, s :: ss, st :: sts, i :: is => by
+    have ih := C04_postSrc_eq_rollIdx ns ss sts is
+    unfold rollIdx at ih ⊢
+    simp only [Pm.C04.postSrc, List.zipWith_cons_cons, zip3With, ih, Nat.add_comm i st]
+example : Pm.C04.postSrc [7, 4] [2, -1] [1, 0] [3, 2] = rollIdx [7, 4] [2, -1] [1 + 3, 0 + 2] := by decide
+
+/-- … hence C04's post-processed array is this model's `crop ∘ roll`, voxel for voxel -/
+theorem C04_postArr_eq (a : Arr Int) (shift : List Int) (starts exts idx : List Nat)
+    (h1 : inShape exts idx = true) (h2 : inShape a.shape (List.zipWith (· + ·) starts idx) = true) :
+    (Pm.C04.postArr a shift starts exts).getD idx 0 = (crop (rollArr a shift 0) starts exts 0).getD idx 0 := by
+  unfold Pm.C04.postArr
+  rw [Arr.getD_ofFn _ _ _ _ h1, crop_spec _ _ _ _ _ h1]
+  unfold rollArr
+  rw [Arr.getD_ofFn _ _ _ _ h2, C04_postSrc_eq_rollIdx]
+example : (Pm.C04.postArr (⟨[5], #[1, 2, 3, 4, 5]⟩ : Arr Int) [1] [1] [3]).toList
+    = (crop (rollArr (⟨[5], #[1, 2, 3, 4, 5]⟩ : Arr Int) [1] 0) [1] [3] 0).toList := by decide
+
+/-! ## modular roll: composition, inverse, range -/
+
+/-- rolling by `s'` and then by `s` is rolling by `s + s'` (per axis, any signs, any size of the shifts) -/
+theorem roll_compose (N : Nat) (s s' : Int) (i : Nat) (hN : 0 < N) :
+    rollSrc N s (rollSrc N s' i) = rollSrc N (s + s') i := rollSrc_rollSrc N s s' i hN
+example : rollSrc 7 (-2) (rollSrc 7 16 3) = rollSrc 7 14 3 := by decide
+
+/-- n-D: the source index of two successive rolls is the source index of one roll by the summed shift vector;
+a rolled index stays inside the array; rolling by zero reads the voxel itself -/
+theorem rollIdx_compose (shape : List Nat) (s s' : List Int) (idx : List Nat) (h : inShape shape idx = true)
+    (h1 : s.length = shape.length) (h2 : s'.length = shape.length) :
+    rollIdx shape s (rollIdx shape s' idx) = rollIdx shape (List.zipWith (· + ·) s s') idx ∧
+    inShape shape (rollIdx shape s idx) = true ∧
+    rollIdx shape (shape.map fun _ => (0 : Int)) idx = idx :=
+  ⟨rollIdx_rollIdx shape s s' idx h h1 h2, rollIdx_inShape shape s idx h h1, rollIdx_zero shape idx h⟩
+example : rollIdx [4, 5] [1, -2] (rollIdx [4, 5] [-1, 2] [3, 0]) = [3, 0] := by decide
+
+/-- array level: rolling back undoes the roll (`roll(roll(a, s), -s) = a`), voxel for voxel -/
+theorem rollArr_inverse {α : Type} (a : Arr α) (s : List Int) (d : α) (idx : List Nat)
+    (h : inShape a.shape idx = true) (hs : s.length = a.shape.length) :
+    (rollArr (rollArr a s d) (s.map (- ·)) d).getD idx d = a.getD idx d := by
+  have hl : (s.map (- ·)).length = a.shape.length := by simpa using hs
+  have h' := rollIdx_inShape a.shape (s.map (- ·)) idx h hl
+  show (Arr.ofFn a.shape _).getD idx d = _
+  rw [Arr.getD_ofFn _ _ _ _ h]
+  show (Arr.ofFn a.shape _).getD (rollIdx a.shape (s.map (- ·)) idx) d = _
+  rw [Arr.getD_ofFn _ _ _ _ h', rollIdx_rollIdx a.shape s (s.map (- ·)) idx h hs hl]
+  have : List.zipWith (· + ·) s (s.map (- ·)) = a.shape.map fun _ => (0 : Int) := by
+    clear h h' hl
+    generalize a.shape = sh at hs
+    induction s generalizing sh with
+    | nil => cases sh <;> simp_all
+    | cons x xs ih =>
+      cases sh with
+      | nil => simp at hs
+      | cons y ys =>
+        simp only [List.map_cons, List.zipWith_cons_cons]
+        rw [ih ys (by simpa using hs)]
+        simp
+  rw [this, rollIdx_zero a.shape idx h]
+example : (rollArr (rollArr (⟨[5], #[1, 2, 3, 4, 5]⟩ : Arr Int) [2] 0) [-2] 0).toList = [1, 2, 3, 4, 5] := by decide
+
+/-- `full` mode with a zero shift reads the raw map unchanged -/
+theorem postSrc_full (N t : Nat) (h : t < N) : postSrc N 0 0 t = t := by
+  unfold postSrc; rw [Nat.zero_add]; exact rollSrc_zero N t h
+example : postSrc 10 0 0 7 = 7 := by decide
+
+/-- closed form of the template-larger-than-target correction with full padding: the shift is the difference of the
+`same` crop start in the enlarged convolution shape and the template's half width -/
+theorem shiftAxis_larger_closed (n m : Nat) (h : n < m) :
+    shiftAxis true true n m false = (((2 * m - 1 - n) / 2 : Nat) : Int) - (((m - 1) / 2 : Nat) : Int) :=
+  shiftAxis_larger_pad n m h
+example : shiftAxis true true 5 7 false = 1 ∧ shiftAxis true true 4 7 false = 1 ∧ shiftAxis true true 4 8 false = 2 := by decide
+
+/-- all four results have one entry per axis -/
+theorem fourierPadding_lengths (tg tp : List Nat) (bm : List Bool) (pad : Bool) (h : NoBatch tg tp bm) :
+    (fourierPadding tg tp bm pad).conv.length = tg.length ∧ (fourierPadding tg tp bm pad).fast.length = tg.length ∧
+    (fourierPadding tg tp bm pad).shift.length = tg.length := by
+  have hc : (fourierPadding tg tp bm pad).conv.length = tg.length := by
+    rw [fourierPadding_conv_eq_C01 tg tp bm pad h]
+    induction tg generalizing tp bm with
+    | nil => simp
+    | cons n ns ih =>
+      cases tp with
+      | nil => cases bm <;> cases h
+      | cons m ms =>
+        cases bm with
+        | nil => cases h
+        | cons b bs => simp only [List.zipWith_cons_cons, List.length_cons]; rw [ih ms bs h.2]
+  refine ⟨hc, by rw [(fourierPadding_shapes tg tp bm pad).2.1, List.length_map, hc], ?_⟩
+  rw [fourierPadding_shift_eq_C01 tg tp bm pad h]
+  clear hc
+  induction tg generalizing tp bm with
+  | nil => cases tp <;> simp [Pm.C01.shiftsOfFull]
+  | cons n ns ih =>
+    cases tp with
+    | nil => cases bm <;> cases h
+    | cons m ms =>
+      cases bm with
+      | nil => cases h
+      | cons b bs => simp only [Pm.C01.shiftsOfFull, List.length_cons]; rw [ih ms bs h.2]
+example : (fourierPadding [5, 8, 4] [7, 3, 2] [false, false, false] true).shift.length = 3 := by decide
+
+/-! ## `apply_convolution_mode`: the cropping form and the masking form agree on the kept box -/
+
+theorem centeredBox_hit : ∀ (cur new idx : List Nat), List.Forall₂ (fun c n => n ≤ c) cur new →
+    inShape new idx = true →
+    inBox (List.zipWith (fun c n => ((c - n) / 2, (c - n) / 2 + n)) cur new)
+      (List.zipWith (· + ·) (List.zipWith (fun c n => (c - n) / 2) cur new) idx) = true ∧
+    inShape cur (List.zipWith (· + ·) (List.zipWith (fun c n => (c - n) / 2) cur new) idx) = true
+  | [], [], [], _, _ => by simp [inBox, inShape]
+  | c :: cs, n :: ns, i :: is, .cons hcn hr, hi => by
+    rw [inShape_cons] at hi
+    obtain ⟨ih1, ih2⟩ := centeredBox_hit cs ns is hr hi.2
+    simp only [List.zipWith_cons_cons]
+    rw [inBox_cons, inShape_cons]
+    exact ⟨⟨by omega, by omega, ih1⟩, by omega, ih2⟩
+  | [], [], _ :: _, _, hi => by simp [inShape] at hi
+  | _ :: _, _ :: _, [], _, hi => by simp [inShape] at hi
+example : List.Forall₂ (fun c n => n ≤ c) [9, 6] [4, 6] ∧ inShape [4, 6] [3, 5] = true :=
+  ⟨.cons (by decide) (.cons (by decide) .nil), by decide⟩
+
+/-- **both forms of `apply_convolution_mode` agree**: inside the centre box the masking form (`mask_output=True`,
+shape kept, rest zeroed) holds exactly the values the cropping form returns, voxel for voxel -/
+theorem mask_agrees_crop (a : Arr Int) (new idx : List Nat) (h : List.Forall₂ (fun c n => n ≤ c) a.shape new)
+    (hi : inShape new idx = true) :
+    (centeredMask a new).getD (List.zipWith (· + ·) (List.zipWith (fun c n => (c - n) / 2) a.shape new) idx) 0
+      = (crop a (List.zipWith (fun c n => (c - n) / 2) a.shape new) new 0).getD idx 0 := by
+  obtain ⟨hb, hs⟩ := centeredBox_hit a.shape new idx h hi
+  rw [centeredMask_spec a new _ hs, centeredBox_eq a.shape new h, hb, crop_spec _ _ _ _ _ hi]
+  simp
+example : (centeredMask (⟨[5], #[5,6,7,8,9]⟩ : Arr Int) [2]).getD [1 + 1] 0 = (crop (⟨[5], #[5,6,7,8,9]⟩ : Arr Int) [1] [2] 0).getD [1] 0 := by decide
+
+
+
+theorem zipWith_zero_add : ∀ (conv idx : List Nat), idx.length ≤ conv.length →
+    List.zipWith (· + ·) (conv.map fun _ => 0) idx = idx
+  | _, [], _ => by simp
+  | [], _ :: _, h => by simp at h
+  | c :: cs, i :: is, h => by
+    simp only [List.map_cons, List.zipWith_cons_cons, Nat.zero_add]
+    rw [zipWith_zero_add cs is (by simpa using h)]
+example : List.zipWith (· + ·) ([5, 6, 7].map fun _ => 0) [2, 3] = [2, 3] := by decide
+
+/-- the leading-corner cut to the convolution shape reads the array itself -/
+theorem convCut_spec (a : Arr Int) (conv idx : List Nat) (h : inShape (List.zipWith min conv a.shape) idx = true) :
+    (crop a (conv.map fun _ => 0) (List.zipWith min conv a.shape) 0).getD idx 0 = a.getD idx 0 := by
+  rw [crop_spec _ _ _ _ _ h, zipWith_zero_add]
+  have := inShape_length h
+  rw [this, List.length_zipWith]
+  omega
+example : (crop (⟨[6], #[1, 2, 3, 4, 5, 6]⟩ : Arr Int) [0] [5] 0).getD [4] 0 = 5 := by decide
+
+/-- **masking form, all three modes**: the result has the shape of the array cut to the convolution shape; `full` keeps
+every value, `same` / `valid` keep the values inside the centre box of the mode and zero the rest -/
+theorem convMask_spec (mode : Mode) (a : Arr Int) (conv s1 s2 idx : List Nat)
+    (h : inShape (List.zipWith min conv a.shape) idx = true)
+    (hv : mode = .valid → (List.zipWith validLen s1 s2).any (· < 0) = false) :
+    ∃ r, convMask mode a conv s1 s2 = some r ∧ r.shape = List.zipWith min conv a.shape ∧
+      r.getD idx 0 = match mode with
+        | .full => a.getD idx 0
+        | .same => if inBox (centeredBox (List.zipWith min conv a.shape) s1) idx then a.getD idx 0 else 0
+        | .valid => if inBox (centeredBox (List.zipWith min conv a.shape)
+            ((List.zipWith validLen s1 s2).map Int.toNat)) idx then a.getD idx 0 else 0 := by
+  have hc := convCut_spec a conv idx h
+  cases mode with
+  | full => exact ⟨_, rfl, rfl, hc⟩
+  | same =>
+    refine ⟨_, rfl, rfl, ?_⟩
+    rw [centeredMask_spec _ _ _ h, hc]; rfl
+  | valid =>
+    have hv' := hv rfl
+    refine ⟨centeredMask (crop a (conv.map fun _ => 0) (List.zipWith min conv a.shape) 0)
+      ((List.zipWith validLen s1 s2).map Int.toNat), ?_, rfl, ?_⟩
+    · unfold convMask; simp [hv']
+    · rw [centeredMask_spec _ _ _ h, hc]; rfl
+example : (convMask .same (⟨[6], #[1, 2, 3, 4, 5, 6]⟩ : Arr Int) [5] [3] [3]).map (·.toList) = some [0, 2, 3, 4, 0] := by decide
+
+/-! ## `topk_indices` -/
+
+/-- accepted exactly when `k` does not exceed the number of elements (and there is an element) -/
+theorem topkFlat_isSome (vals : List Int) (k : Nat) :
+    (topkFlat vals k).isSome = true ↔ k ≤ vals.length ∧ 0 < vals.length := by
+  unfold topkFlat
+  by_cases h : vals.length < k ∨ vals.length = 0
+  · rw [if_pos h]; simp only [Option.isSome_none, Bool.false_eq_true, false_iff]; omega
+  · rw [if_neg h]; simp only [Option.isSome_some, true_iff]; omega
+example : topkFlat [3, 1, 2] 4 = none ∧ (topkFlat [3, 1, 2] 3).isSome = true := by decide
+
+/-- `k` positions are returned, all different, all inside the array -/
+theorem topkFlat_positions (vals : List Int) (k : Nat) (fl : List Nat) (h : topkFlat vals k = some fl) :
+    fl.length = k ∧ fl.Nodup ∧ ∀ i ∈ fl, i < vals.length := by
+  obtain ⟨rfl, hk, _⟩ := topkFlat_eq vals k fl h
+  refine ⟨by rw [List.length_map, topkPairs_length vals k hk], topkPairs_nodup vals k, ?_⟩
+  intro i hi
+  obtain ⟨p, hp, rfl⟩ := List.mem_map.mp hi
+  have := topkPairs_mem vals k p hp
+  exact (List.getElem?_eq_some_iff.mp this).1
+example : topkFlat [3, 9, 9, 0] 2 = some [1, 2] := by
+  simp [topkFlat, valIdx, geVal, List.mergeSort, List.zipIdx, List.MergeSort.Internal.splitInTwo]
+
+/-- the values at the returned positions are in descending order (largest first) -/
+theorem topkFlat_sorted (vals : List Int) (k : Nat) (fl : List Nat) (h : topkFlat vals k = some fl) :
+    (fl.map fun i => vals.getD i 0).Pairwise (fun a b => b ≤ a) := by
+  obtain ⟨rfl, _, _⟩ := topkFlat_eq vals k fl h
+  rw [List.map_map, List.pairwise_map]
+  refine (List.Pairwise.and_mem.mp (topkPairs_sorted vals k)).imp ?_
+  rintro a b ⟨ha, hb, hab⟩
+  have ea := topkPairs_mem vals k a ha
+  have eb := topkPairs_mem vals k b hb
+  simp only [Function.comp, List.getD_eq_getElem?_getD, ea, eb, Option.getD_some]
+  exact hab
+example : topkFlat [3, 1, 2] 3 = some [0, 2, 1] := by
+  simp [topkFlat, valIdx, geVal, List.mergeSort, List.zipIdx, List.MergeSort.Internal.splitInTwo]
+
+/-- **the `k` largest**: no position that was left out holds a value above any returned one (ties included) -/
+theorem topkFlat_dominates (vals : List Int) (k : Nat) (fl : List Nat) (h : topkFlat vals k = some fl)
+    (i : Nat) (hi : i ∈ fl) (j : Nat) (hj : j < vals.length) (hn : j ∉ fl) :
+    vals.getD j 0 ≤ vals.getD i 0 := by
+  obtain ⟨rfl, _, _⟩ := topkFlat_eq vals k fl h
+  obtain ⟨p, hp, rfl⟩ := List.mem_map.mp hi
+  have ep := topkPairs_mem vals k p hp
+  have ej : vals[j]? = some vals[j] := List.getElem?_eq_getElem hj
+  have := topkPairs_dominates vals k p hp j vals[j] ej hn
+  simp only [List.getD_eq_getElem?_getD, ep, ej, Option.getD_some]
+  exact this
+example : topkFlat [3, 1, 2, 3] 2 = some [0, 3] := by
+  simp [topkFlat, valIdx, geVal, List.mergeSort, List.zipIdx, List.MergeSort.Internal.splitInTwo]
+
+/-- the n-D result lists, per axis, the unravelled coordinates of those flat positions -/
+theorem topkIndices_spec (a : Arr Int) (k : Nat) (fl : List Nat) (h : topkFlat a.toList k = some fl) :
+    topkIndices a k = some ((List.range a.shape.length).map fun ax => fl.map fun f => (unflat a.shape f).getD ax 0) := by
+  unfold topkIndices; rw [h]; rfl
+example : ∃ fl, topkFlat (⟨[2, 3], #[3, 1, 2, 9, 8, 0]⟩ : Arr Int).toList 2 = some fl :=
+  Option.isSome_iff_exists.mp ((topkFlat_isSome _ _).mpr (by decide))
+
+/-! ## `indices` -/
+
+theorem indicesArr_spec (shape : List Nat) (a : Nat) (idx : List Nat) (d : Nat)
+    (h : inShape (shape.length :: shape) (a :: idx) = true) :
+    (indicesArr shape).getD (a :: idx) d = idx.getD a 0 := by
+  unfold indicesArr
+  rw [Arr.getD_ofFn _ _ _ _ h]
+example : (indicesArr [2, 3]).toList = [0, 0, 0, 1, 1, 1, 0, 1, 2, 0, 1, 2] := by decide
+
+/-! ## `center_of_mass` with integer weights: numerator and denominator of the rational coordinate -/
+
+/-- per axis the result is (Σ w·x, Σ w) over the voxels that pass the cutoff -/
+theorem centerOfMass_spec (a : Arr Int) (cut : Option Int) (ax : Nat) (h : ax < a.shape.length) :
+    (centerOfMass a cut)[ax]? = some (wMoment cut (axisEntries a ax), wSum cut (axisEntries a ax)) := by
+  unfold centerOfMass
+  simp [List.getElem?_map, List.getElem?_range h]
+example : centerOfMass (⟨[2, 2], #[1, 2, 3, 4]⟩ : Arr Int) none = [(7, 10), (6, 10)] := by decide
+
+/-- cutoff semantics: voxels at or below the cutoff contribute nothing — same as leaving them out -/
+theorem centerOfMass_cutoff (c : Int) (es : List (Nat × Int)) :
+    wSum (some c) es = wSum none (es.filter fun e => decide (c < e.2)) ∧
+    wMoment (some c) es = wMoment none (es.filter fun e => decide (c < e.2)) :=
+  ⟨wSum_cut c es, wMoment_cut c es⟩
+example : centerOfMass (⟨[2, 2], #[1, 2, 3, 4]⟩ : Arr Int) (some 2) = [(7, 7), (4, 7)] := by decide
+
+/-- **translation covariance**: moving every point by `s` moves the centre of mass by `s`
+(`num' / den' = num / den + s` as `num' = num + s · den`, `den' = den`) -/
+theorem centerOfMass_translate (cut : Option Int) (s : Nat) (es : List (Nat × Int)) :
+    wSum cut (shiftEntries s es) = wSum cut es ∧
+    wMoment cut (shiftEntries s es) = wMoment cut es + (s : Int) * wSum cut es :=
+  ⟨wSum_shift cut s es, wMoment_shift cut s es⟩
+example : wMoment none (shiftEntries 3 [(0, 2), (4, 1)]) = wMoment none [(0, 2), (4, 1)] + 3 * wSum none [(0, 2), (4, 1)] := by decide
+
+/-- scale invariance: multiplying every weight by `q` multiplies numerator and denominator by `q` -/
+theorem centerOfMass_scale (q : Int) (es : List (Nat × Int)) :
+    wSum none (scaleEntries q es) = q * wSum none es ∧ wMoment none (scaleEntries q es) = q * wMoment none es :=
+  ⟨wSum_scale q es, wMoment_scale q es⟩
+example : wMoment none (scaleEntries 3 [(0, 2), (4, 1)]) = 3 * wMoment none [(0, 2), (4, 1)] := by decide
+
+/-- with a non-negative cutoff (the searches use `cutoff = 0`) the centre of mass lies between the smallest and the
+largest coordinate: `lo · den ≤ num ≤ hi · den` -/
+theorem centerOfMass_in_hull (c : Int) (hc : 0 ≤ c) (lo hi : Nat) (es : List (Nat × Int))
+    (h : ∀ e ∈ es, lo ≤ e.1 ∧ e.1 ≤ hi) :
+    (lo : Int) * wSum (some c) es ≤ wMoment (some c) es ∧ wMoment (some c) es ≤ (hi : Int) * wSum (some c) es :=
+  wMoment_bounds (some c) lo hi es (fun e he => ⟨(h e he).1, (h e he).2, keepW_nonneg c e.2 hc⟩)
+example : ∀ e ∈ [((0 : Nat), (2 : Int)), (4, 1)], 0 ≤ e.1 ∧ e.1 ≤ 4 := by decide
+
+/-! ## `max_filter_coordinates` -/
+
+/-- a voxel is reported exactly when it lies in the array and no voxel of its (border-clamped) window exceeds it -/
+theorem mem_maxFilterCoordinates (a : Arr Int) (s : Nat) (idx : List Nat) :
+    idx ∈ maxFilterCoordinates a s ↔
+      inShape a.shape idx = true ∧ ∀ j ∈ windowIdx a.shape s idx, a.getD j 0 ≤ a.getD idx 0 := by
+  unfold maxFilterCoordinates isPeak
+  rw [List.mem_filter, mem_allIdx, List.all_eq_true]
+  simp only [decide_eq_true_eq]
+example : maxFilterCoordinates (⟨[6], #[1, 3, 2, 3, 0, 5]⟩ : Arr Int) 2 = [[0], [1], [3], [5]] := by decide
+
+/-- a global maximum is always reported -/
+theorem globalMax_reported (a : Arr Int) (s : Nat) (idx : List Nat) (h : inShape a.shape idx = true)
+    (hmax : ∀ j, a.getD j 0 ≤ a.getD idx 0) : idx ∈ maxFilterCoordinates a s :=
+  (mem_maxFilterCoordinates a s idx).mpr ⟨h, fun j _ => hmax j⟩
+example : [5] ∈ maxFilterCoordinates (⟨[6], #[1, 3, 2, 3, 0, 5]⟩ : Arr Int) 4 := by decide
+
+/-- the window of a voxel contains the voxel itself and stays inside the array (`mode="nearest"`):
+a reported voxel holds the maximum of its window -/
+theorem window_self_and_inside (shape idx : List Nat) (s : Nat) (hs : 0 < s) (h : inShape shape idx = true) :
+    idx ∈ windowIdx shape s idx ∧ ∀ j ∈ windowIdx shape s idx, inShape shape j = true :=
+  ⟨self_mem_windowIdx s hs shape idx h, fun j hj => windowIdx_inShape s shape idx j h hj⟩
+example : windowIdx [6] 3 [0] = [[0], [0], [1]] ∧ windowIdx [6] 2 [5] = [[4], [5]] := by decide
+
+
+/-- two voxels within Chebyshev distance `(s-1)/2` lie in each other's window, so **two reported voxels that close hold
+the same score**: distinct reported scores are more than `(s-1)/2` apart -/
+theorem reported_near_equal (a : Arr Int) (s : Nat) (hs : 0 < s) (p q : List Nat)
+    (hp : p ∈ maxFilterCoordinates a s) (hq : q ∈ maxFilterCoordinates a s) (hn : Near ((s - 1) / 2) p q) :
+    a.getD p 0 = a.getD q 0 := by
+  obtain ⟨hp1, hp2⟩ := (mem_maxFilterCoordinates a s p).mp hp
+  obtain ⟨hq1, hq2⟩ := (mem_maxFilterCoordinates a s q).mp hq
+  have h1 := hp2 q (mem_windowIdx_of_near s hs a.shape p q hp1 hq1 hn)
+  have h2 := hq2 p (mem_windowIdx_of_near s hs a.shape q p hq1 hp1 (near_symm _ p q hn))
+  omega
+example : Near ((3 - 1) / 2) [1, 4] [2, 3] := ⟨⟨by decide, by decide⟩, ⟨by decide, by decide⟩, trivial⟩
+
+/-! ## `_rigid_transform_matrix` (integer part) -/
+
+/-- **composition law**: the affine map the matrix stands for is "rotate about the centre, then translate":
+`R⁻¹ x + (c - t - R⁻¹ c) = R⁻¹ (x - c) + c - t`, any dimension -/
+theorem rigidApply_eq (rinv : List (List Int)) (c t x : List Int) (hx : x.length = c.length) :
+    rigidApply rinv c t x
+      = zip3With (fun v ci ti => v + ci - ti) (matVec rinv (List.zipWith (· - ·) x c)) c t := by
+  unfold rigidApply rigidOffset matVec
+  exact rigidApply_aux x c hx rinv t c
+example : rigidApply [[0, 1], [-1, 0]] [3, 4] [1, 2] [5, 6] = [4, 0] := by decide
+
+/-- the centre is a fixed point up to the translation: `x = c ↦ c - t` -/
+theorem rigidApply_center (rinv : List (List Int)) (c t : List Int) :
+    rigidApply rinv c t c = zip3With (fun v ci ti => v + ci - ti) (matVec rinv (List.zipWith (· - ·) c c)) c t :=
+  rigidApply_eq rinv c t c rfl
+example : rigidApply [[0, 1], [-1, 0]] [3, 4] [1, 2] [3, 4] = [2, 2] := by decide
+
+/-- the homogeneous matrix the code multiplies together, 2-D: linear part `R⁻¹`, last column the offset -/
+theorem rigidMatrix_2d (a b c d c0 c1 t0 t1 : Int) :
+    rigidMatrix [[a, b], [c, d]] [c0, c1] [t0, t1]
+      = [[a, b, -t0 + c0 - (a * c0 + b * c1)], [c, d, -t1 + c1 - (c * c0 + d * c1)], [0, 0, 1]] := by
+  simp [rigidMatrix, matMul, identM, translM, linM, List.range, List.range.loop]
+  refine ⟨?_, ?_⟩ <;> ring
+example : rigidMatrix [[0, 1], [-1, 0]] [3, 4] [1, 2] = [[0, 1, -2], [-1, 0, 5], [0, 0, 1]] := by decide
+
+/-- … and 3-D -/
+theorem rigidMatrix_3d' (a b c d e f g h i c0 c1 c2 t0 t1 t2 : Int) :
+    rigidMatrix [[a, b, c], [d, e, f], [g, h, i]] [c0, c1, c2] [t0, t1, t2]
+      = [[a, b, c, -t0 + c0 - (a * c0 + b * c1 + c * c2)], [d, e, f, -t1 + c1 - (d * c0 + e * c1 + f * c2)],
+         [g, h, i, -t2 + c2 - (g * c0 + h * c1 + i * c2)], [0, 0, 0, 1]] :=
+  rigidMatrix_3d a b c d e f g h i c0 c1 c2 t0 t1 t2
+example : rigidMatrix [[0, 1, 0], [-1, 0, 0], [0, 0, 1]] [3, 4, 5] [1, 2, 0] = [[0, 1, 0, -2], [-1, 0, 0, 5], [0, 0, 1, 0], [0, 0, 0, 1]] := by decide
+
+/-- the last column of the matrix the code builds is the offset vector of the affine map (2-D and 3-D) -/
+theorem rigidMatrix_offset_2d (a b c d c0 c1 t0 t1 : Int) :
+    ((rigidMatrix [[a, b], [c, d]] [c0, c1] [t0, t1]).take 2).map (·.getD 2 0)
+      = rigidOffset [[a, b], [c, d]] [c0, c1] [t0, t1] := by
+  rw [rigidMatrix_2d]
+  simp [rigidOffset, matVec, dot, zip3With]
+example : rigidOffset [[0, 1], [-1, 0]] [3, 4] [1, 2] = [-2, 5] := by decide
+
+
+/-- composition law, 2-D: two rigid maps about the same centre compose to the rigid map with the product rotation and
+translation `t + R₁⁻¹ u` -/
+theorem rigidApply_compose_2d (a b c d e f g h c0 c1 t0 t1 u0 u1 x0 x1 : Int) :
+    rigidApply [[a, b], [c, d]] [c0, c1] [t0, t1] (rigidApply [[e, f], [g, h]] [c0, c1] [u0, u1] [x0, x1])
+      = rigidApply [[a * e + b * g, a * f + b * h], [c * e + d * g, c * f + d * h]] [c0, c1]
+          [t0 + (a * u0 + b * u1), t1 + (c * u0 + d * u1)] [x0, x1] := by
+  simp [rigidApply, rigidOffset, matVec, dot, zip3With]
+  constructor <;> ring
+example : rigidApply [[0, 1], [-1, 0]] [3, 4] [1, 2] (rigidApply [[1, 1], [0, 1]] [3, 4] [2, 0] [5, 6]) = [4, 0] := by decide
+
+theorem rigidApply_compose_3d (a b c d e f g h i a' b' c' d' e' f' g' h' i' c0 c1 c2 t0 t1 t2 u0 u1 u2 x0 x1 x2 : Int) :
+    rigidApply [[a, b, c], [d, e, f], [g, h, i]] [c0, c1, c2] [t0, t1, t2]
+        (rigidApply [[a', b', c'], [d', e', f'], [g', h', i']] [c0, c1, c2] [u0, u1, u2] [x0, x1, x2])
+      = rigidApply [[a * a' + b * d' + c * g', a * b' + b * e' + c * h', a * c' + b * f' + c * i'],
+                    [d * a' + e * d' + f * g', d * b' + e * e' + f * h', d * c' + e * f' + f * i'],
+                    [g * a' + h * d' + i * g', g * b' + h * e' + i * h', g * c' + h * f' + i * i']] [c0, c1, c2]
+          [t0 + (a * u0 + b * u1 + c * u2), t1 + (d * u0 + e * u1 + f * u2), t2 + (g * u0 + h * u1 + i * u2)] [x0, x1, x2] := by
+  simp [rigidApply, rigidOffset, matVec, dot, zip3With]
+  refine ⟨?_, ?_, ?_⟩ <;> ring
+example : rigidApply [[0, 1], [-1, 0]] [3, 4] [1, 2] (rigidApply [[0, 1], [-1, 0]] [3, 4] [0, 0] [5, 6]) = [0, 0] := by decide
+
+/-! ## `build_fft`: shapes and axes of the two plans -/
+
+/-- default call: the forward plan reads the planned real shape and writes its half spectrum, the inverse plan reads
+that half spectrum and writes the planned real shape, both over all axes -/
+theorem buildFft_default (fast : List Nat) :
+    buildFft fast (fastFtShape fast) none
+      = some ⟨fast, fastFtShape fast, List.range fast.length, fastFtShape fast, fast, List.range fast.length⟩ := by
+  simp [buildFft]
+example : buildFft [6, 7] [6, 4] none = some ⟨[6, 7], [6, 4], [0, 1], [6, 4], [6, 7], [0, 1]⟩ := by decide
+
+/-- an explicit inverse shape is accepted exactly when its half spectrum is the complex buffer's shape -/
+theorem buildFft_isSome (fast ft : List Nat) (inverse : Option (List Nat)) :
+    (buildFft fast ft inverse).isSome = true ↔ fastFtShape (inverse.getD fast) = ft := by
+  unfold buildFft
+  simp only
+  split <;> simp_all
+example : (buildFft [6, 7] [6, 4] (some [6, 6])).isSome = true ∧ (buildFft [6, 7] [6, 4] (some [6, 8])).isSome = false := by decide
+
+/-- the even and the odd real length that share a half spectrum are *both* accepted as inverse shape — the complex
+buffer alone does not determine the real shape, which is why `build_fft` passes `s = inverse_fast_shape` explicitly -/
+theorem buildFft_both_parities (init : List Nat) (h : Nat) (hh : 1 ≤ h) :
+    (buildFft (init ++ [2 * h]) (init ++ [h + 1]) (some (init ++ [2 * h]))).isSome = true ∧
+    (buildFft (init ++ [2 * h]) (init ++ [h + 1]) (some (init ++ [2 * h + 1]))).isSome = true := by
+  rw [buildFft_isSome, buildFft_isSome]
+  simp only [Option.getD_some, fastFtShape_snoc]
+  constructor <;> congr 2 <;> omega
+example : (buildFft [6, 6] [6, 4] (some [6, 7])).map (·.invOut) = some [6, 7] ∧ buildFft [6, 6] [6, 4] (some [6, 8]) = none := by decide
+
+/-! ## shared-memory hand-off as a (buffer, shape, item size) triple -/
+
+/-- **round trip**: whatever the size of the block the OS hands out (`slack` extra bytes), reading
+`prod(shape) · itemsize` bytes from its start returns the array's bytes -/
+theorem fromShared_toShared (shape : List Nat) (itemsize : Nat) (bytes : List Nat) (slack : Nat)
+    (h : bytes.length = prodL shape * itemsize) :
+    fromShared (toShared shape itemsize bytes slack) = bytes := by
+  unfold fromShared toShared
+  simp only
+  rw [← h, List.take_left']
+  rfl
+example : fromShared (toShared [2, 1] 2 [1, 2, 3, 4] 4092) = [1, 2, 3, 4] := by decide
+
+/-- shape and item size travel unchanged -/
+theorem toShared_meta (shape : List Nat) (itemsize : Nat) (bytes : List Nat) (slack : Nat) :
+    (toShared shape itemsize bytes slack).shape = shape ∧ (toShared shape itemsize bytes slack).itemsize = itemsize ∧
+    (toShared shape itemsize bytes slack).buf.length = bytes.length + slack := by
+  simp [toShared]
 
 /-! ## non-vacuity -/
 example : nextFastLen 17 = 18 ∧ nextFastLen 23 = 24 ∧ nextFastLen 11 = 11 := by decide
